@@ -102,6 +102,28 @@ ProofTable == {LET pf == Proof(root, k) IN
 NeedTable == {[r |-> J(pr.r), k |-> k, need |-> JSet(NeededNodes(pr.r, k)), v |-> JV(ModelVal(pr.c, k))] :
                 pr \in past \cup {[r |-> root, c |-> contents]}, k \in LookupKeys}
 ObsC03 == [proofs |-> ProofTable, needs |-> NeedTable, db |-> JSet(db)] @@ ObsC01
+\* (written as single recursive passes: TLC re-evaluates LET-bound sequences at every use)
+RECURSIVE PreJ(_, _)
+RECURSIVE PreKidsJ(_, _, _)
+PreKidsJ(n, pre, i) == IF i > Len(SubSegs(n)) THEN <<>>
+                       ELSE LET s == SubSegs(n)[i] IN PreJ(ChildVia(n, s), TLCEval(pre \o s)) \o PreKidsJ(n, pre, i + 1)
+PreJ(n, pre) == << [p |-> pre, t |-> n.t, subs |-> SubSegs(n), v |-> JV(NodeValue(n)), suffix |-> Suffix(n)] >>
+                \o PreKidsJ(n, pre, 1)
+RECURSIVE SortedItemsJ(_)
+SortedItemsJ(K) == IF K = {} THEN <<>>
+                   ELSE LET m == MinKey(K).k IN << <<m, JV(contents[m])>> >> \o SortedItemsJ(K \ {m})
+IterTable ==
+  [items |-> SortedItemsJ(Live(contents)),
+   nodes |-> PreJ(root, <<>>),
+   next |-> {[q |-> q, r |-> SuccOf(Live(contents), q)] : q \in IterQueries},
+   first |-> MinKey(Live(contents))]
+ObsC10 == [iter |-> IterTable] @@ ObsC01
+EmitStC10 == PrintT(ToJson([h |-> hist, st |-> ObsC10]))
+EmitC10 == PrintT(ToJson([h |-> hist', st |-> ObsC10']))
+\* (state-level emission is evaluated unprimed: TLC caches lazily evaluated operator arguments
+\* there, which it does not do while it is constructing a successor state)
+EmitStAll == PrintT(ToJson([h |-> hist, st |-> Obs]))
+EmitStC01 == PrintT(ToJson([h |-> hist, st |-> ObsC01]))
 EmitStC08 == PrintT(ToJson([h |-> hist, st |-> ObsC08]))
 EmitStC03 == PrintT(ToJson([h |-> hist, st |-> ObsC03]))
 ObsC07 == [trav |-> TravTable] @@ Obs
